@@ -213,6 +213,8 @@ def epithermal(cd):
 def resonance_fluence(rng, f, cd, fast):
     """a fluence at which the target burn-up rate a is within a random relative distance of
     lam + b (the point where the single-capture formula divides by ~0), if it lies in range"""
+    if f["Thalf_hrs"] <= 0:
+        return None
     e = epithermal(cd)
     s1 = f["thermalXS"] + e * f["resonance"]
     s2 = f["thermalXS_parent"] + e * f["resonance_parent"]
